@@ -863,7 +863,7 @@ def wl_history(ctx):
     global CUR
     from prysm import propagation as P
     from prysm.conf import config
-    n = ctx.pick(400, 120000)
+    n = ctx.pick(400, 80000)
     maxlen = ctx.pick(6, 14)
     for k in range(n):
         if not ctx.mine(k):
@@ -951,7 +951,7 @@ def wl_repeat(ctx):
     from prysm.coordinates import make_xy_grid
     from ..util import precision
     from .c01 import repeat_laws
-    n = ctx.pick(400, 200000)
+    n = ctx.pick(400, 120000)
     for k in range(n):
         if not ctx.mine(k):
             continue
